@@ -297,3 +297,35 @@ func loadKnownFindings(verif, prop string) []string {
 	}
 	return out
 }
+
+func init() {
+	// C07: T1 = acceptance obligations of Step (components PC, SP, memory,
+	// registers), T2 = the boundary PC of HALT and of unfinished block
+	// instructions is the instruction itself (arms, component PC), T3/T4 lemmas.
+	checks["C07"] = func(ld *Loaded, r *Run) {
+		r.verifyHelpers(ld, nil)
+		comps := allComps()
+		var cs []stepCase
+		for _, sc := range stepCases(true) {
+			switch {
+			case sc.name == "NMI", sc.name == "IM1", sc.name == "IM2":
+				cs = append(cs, sc)
+			case strings.HasPrefix(sc.name, "IM0["):
+				// quick tier: the unprefixed table (RST, CALL, JP, ... the instructions a
+				// device realistically supplies); thorough tier: all seven tables
+				if r.Tier == "thorough" || sc.enc.Table == "" {
+					cs = append(cs, sc)
+				}
+			}
+		}
+		if r.Tier != "thorough" {
+			r.Notes["quick_tier_subset:Step/IM0"] = "mode-0 acceptance for the 252 unprefixed supplied instructions (all 1786 in the thorough tier and in C06)"
+		}
+		r.checkFn(ld, "z80.(*CPU).Step", cs, comps, false, false, "cpu.Step()")
+		pcOnly := set("PC", "HALT")
+		r.checkArms(ld, filterEnc(func(e Encoding) bool { return famBlock(e) || e.Table == "" && e.Op == 0x76 }),
+			func(Encoding) map[string]bool { return pcOnly }, false, false)
+		r.checkLemmas(ld, "C07")
+		r.Assumptions["C07: the step from the per-boundary obligations (T1-T4) to whole interrupted runs is induction over the program trace (meta-level, not machine-checked)"] = true
+	}
+}
